@@ -4,11 +4,11 @@ use core::mem::MaybeUninit;
 macro_rules! array_map {
     ($array:expr, $($closure:tt)* ) => (
         match $array {
-            ref array => {
-                let array = $crate::__::assert_array(array);
+            ref __konst_am_array => {
+                let __konst_am_array = $crate::__::assert_array(__konst_am_array);
 
                 $crate::utils::__parse_closure_1!{
-                    ($crate::__array_map) (array, |i| array[i],) (array_map),
+                    ($crate::__array_map) (__konst_am_array, |__konst_am_i| __konst_am_array[__konst_am_i],) (array_map),
                     $($closure)*
                 }
             }
@@ -24,20 +24,20 @@ macro_rules! __array_map {
         |$i:ident| $get_input:expr,
         ($($pattern:tt)*) $(-> $ret:ty)? $mapper:block $(,)?
     ) => ({
-        let len = $crate::__::array_len(&$array);
-        let mut out = $crate::__::uninit_array_of_len(&$array);
+        let __konst_am_len = $crate::__::array_len(&$array);
+        let mut __konst_am_out = $crate::__::uninit_array_of_len(&$array);
 
         let mut $i = 0usize;
-        while $i < len {
+        while $i < __konst_am_len {
             let $($pattern)* = $get_input;
-            out[$i] = $crate::__::MaybeUninit $(::<$ret>)? ::new($mapper);
+            __konst_am_out[$i] = $crate::__::MaybeUninit $(::<$ret>)? ::new($mapper);
             $i += 1;
         }
         // protecting against malicious `$mapper`s that break out of the `while` loop
-        $crate::__::assert!($i == len);
+        $crate::__::assert!($i == __konst_am_len);
 
         unsafe{
-            $crate::__::array_assume_init(out)
+            $crate::__::array_assume_init(__konst_am_out)
         }
     })
 }
@@ -58,15 +58,15 @@ macro_rules! array_from_fn {
 #[macro_export]
 macro_rules! __array_from_fn_inner {
     (($($($type:tt)+)?) $($closure_unparsed:tt)*) => ({
-        let input = $crate::__::unit_array();
+        let __konst_am_input = $crate::__::unit_array();
 
-        let arr $(: $crate::__unparenthesize_ty!($($type)*))? =
+        let __konst_am_arr $(: $crate::__unparenthesize_ty!($($type)*))? =
             $crate::utils::__parse_closure_1!{
-                ($crate::__array_map) (input, |i| i,) (array_from_fn),
+                ($crate::__array_map) (__konst_am_input, |__konst_am_i| __konst_am_i,) (array_from_fn),
                 $($closure_unparsed)*
             };
 
-        arr
+        __konst_am_arr
     });
 }
 
